@@ -33,6 +33,7 @@ pub fn judged(kind: &str) -> bool {
 pub fn justification(kind: &str) -> &'static str {
     match kind {
         "e1-replace" => "rule 'an operand, argument, field, condition, element, return or assigned value whose type cannot equal the expected one': the context (annotations, signatures, sibling operands) fixes a class of types for this position that does not contain the type of the new, concretely typed expression",
+        "e1-foreign-receiver" => "rule 'an ... argument ... whose type cannot equal the expected one': `x.f(..)` passes `x` as the first argument of `f`, and `f` is a function filed under x's type whose first parameter has another type (`String.from_chars` takes a List[char], `List.join` a List[String], `Prefix.new` an IpAddr)",
         "e1-intlit" => "same rule; an integer literal has one of the 8 integer types (language reference, Integers) and none of them is admitted at this position",
         "e1-floatlit" => "same rule; a floating point literal is f32 or f64 (language reference, Floating Point Numbers) and neither is admitted at this position",
         "e2-drop-arg" | "e2-dup-arg" | "e2-add-arg" => "rule 'wrong argument count': the callee's declared parameter list has a different length",
@@ -1184,6 +1185,26 @@ impl<'a> Gen<'a> {
                                 let pre = Sp { s: head.sp.s, e: segs[segs.len() - 2].sp.e };
                                 let pre_src = self.text(pre).to_string();
                                 self.e1(&Cl::HasMethod(last.name.clone()), &info.vars, role("method receiver"), pre, &pre_src, "method receiver");
+                            }
+                            // `x.f(..)` passes `x` as the first argument of `f`. The runtime files every
+                            // function of an impl block under its type, also those whose first parameter
+                            // is NOT a value of that type: written as a method call on such a value they
+                            // get a first argument of the wrong type (seeded change C07-5).
+                            if is_var && segs.len() == 2 {
+                                let vt = info.vars.iter().rev().find(|(n, _)| *n == head.name).map(|(_, t)| t.clone());
+                                let foreign: Vec<(&str, &str)> = match vt {
+                                    Some(T::P("String")) => vec![("from_chars", "()")],
+                                    Some(T::App(n, a)) if n == "List" && a.first() != Some(&T::P("String")) => vec![("join", "(\", \")")],
+                                    Some(T::App(n, _)) if n == "Prefix" => vec![("new", "(24u8)")],
+                                    _ => vec![],
+                                };
+                                for (f, a) in foreign {
+                                    self.push(
+                                        "e1-foreign-receiver",
+                                        format!("`{}.{}(..)` -> `{}.{f}{a}`", head.name, last.name, head.name),
+                                        vec![(last.sp.s, asp.e, format!("{f}{a}"))],
+                                    );
+                                }
                             }
                         }
                     }
